@@ -2157,6 +2157,12 @@ func (m *Machine) processQueue() Result {
 	m.queueMx.Unlock()
 
 	verifAt(m, "pq.queueEnd")
+	// a mutation could have been queued after the loop ended, but before the
+	// processing flag was released (its caller got Queued), so check once more
+	if m.queueLen.Load() > 0 && !m.disposing.Load() {
+		m.processQueue()
+	}
+
 	if len(ret) == 0 {
 		return Canceled
 	}
